@@ -217,6 +217,18 @@ pub fn gen_records<const L: usize>(env: &mut Env<L>, k: usize) -> [[u32; 4]; 2] 
     saved
 }
 
+/// arbitrary level-2 data (what an earlier step may have left in the cache)
+pub fn any_l2<const L: usize>() -> Level2Data<L> {
+    Level2Data {
+        bid_price: any_u32(),
+        ask_price: any_u32(),
+        bid_vol: any_u32(),
+        ask_vol: any_u32(),
+        bid_price_levels: core::array::from_fn(|_| (any_u32(), any_u32())),
+        ask_price_levels: core::array::from_fn(|_| (any_u32(), any_u32())),
+    }
+}
+
 pub const E8: u32 = 1; // C08: batch applied exactly once each in the shuffled order at start+i
 pub const E10: u32 = 2; // C10: cache == live after the step
 pub const E11: u32 = 4; // C11: every series grew by one faithful record
@@ -318,6 +330,8 @@ pub fn step_env_sched<const N: usize, const L: usize, const NB: usize>(m: usize,
     let (book, old) = build_with_log::<N, L>(&p, cfg.ntrades);
     let mut env: Env<L> = Env::verif_from_book(step_size, book);
     let saved = gen_records(&mut env, k);
+    // whatever the cache held before must not survive the step
+    env.verif_set_level_2_data(any_l2::<L>());
     let mut i = 0;
     while i < NB {
         env.transactions.push(to_event(&evs[i]));
@@ -430,6 +444,8 @@ pub fn step_loop<const N: usize, const L: usize, const NB: usize>(m: usize, k: u
     let (book, old) = build_with_log::<N, L>(&p, cfg.ntrades);
     let mut env: Env<L> = Env::verif_from_book(step_size, book);
     let saved = gen_records(&mut env, k);
+    // whatever the cache held before must not survive the step
+    env.verif_set_level_2_data(any_l2::<L>());
     let mut i = 0;
     while i < NB {
         env.transactions.push(to_event(&evs[i]));
